@@ -67,16 +67,19 @@ def _put_lens(bw, lens, typ, rng=None):
         c = l
 
 
-def _ops(tokens, rng, runs):
+def _ops(tokens, rng, runs, tail=0):
+    """tokens -> operations; literals are grouped into runs of 1..32 ('max': as
+    long as possible, 'random'); the last `tail` literals stay one run"""
     ops = []; lits = []
-    def flush():
-        while lits:
-            k = min(len(lits), 32 if runs == 'max' else rng.randint(1, 32))
+    def flush(keep=0):
+        while len(lits) > keep:
+            k = min(len(lits) - keep, 32 if runs == 'max' else rng.randint(1, 32))
             ops.append(('R', lits[:k])); del lits[:k]
+        if lits: ops.append(('R', lits[:]))
     for t in tokens:
         if t[0] == 'L': lits.append(t[1])
-        else: flush(); ops.append(t)
-    flush()
+        else: flush(); del lits[:]; ops.append(t)
+    flush(tail)
     return ops
 
 
@@ -146,7 +149,7 @@ def lzh_encode(tokens, rng=None, huffman='optimal', types=None, runs='max', spar
                 if n + ln > len(want) - k: break
                 toks.append(t); n += ln
             tokens = toks + [('L', b) for b in want[n:]]
-        ops = _ops(tokens, rng, runs)
+        ops = _ops(tokens, rng, runs, k if attempt else 0)
         f = [{} for _ in range(5)]; lit_run = 0
         def count(i, s): f[i][s] = f[i].get(s, 0) + 1
         for op in ops:
@@ -178,10 +181,11 @@ def lzh_encode(tokens, rng=None, huffman='optimal', types=None, runs='max', spar
         nxt = codes[1 if lit_run else 0]
         stop = [c for s, c in sorted(nxt.items()) if s > 0]
         body = bytes(bw.out); acc, n = bw.acc, bw.n
-        pads = []
+        pads = []; olong = max(codes[3].values(), key=lambda c: c[1])
         for code, l in stop[:2] + stop[-1:]:
             for extra in (0, 1, 2):
                 t = MSBBytes(); t.put(acc, n); t.put(code, l); t.align(); t.raw(bytes(extra)); pads.append(bytes(t.out))
+            t = MSBBytes(); t.put(acc, n); t.put(code, l); t.put(*olong); t.align(1); pads.append(bytes(t.out))
         pads += [bytes([acc << (8 - n)]) if n else b'', bytes([(acc << (8 - n)) | ((1 << (8 - n)) - 1)]) if n else b'']
         if rng: rng.shuffle(pads)
         for p in pads:
